@@ -196,8 +196,8 @@ def _r4(ctx, m):
     okret = False
     for f in rets:
         v = f.value
-        if v and v[0] == "call" and v[1][0] == "attr" and v[1][2] == "ODEContent":
-            okret = len(v[2]) >= 4 and simp(v[2][3]) == fv or any(k == "fex" and simp(x) == fv for k, x in v[3])
+        if v and v[0] == "meth" and v[2] == "ODEContent":
+            okret = len(v[3]) >= 4 and simp(v[3][3]) == fv or any(k == "fex" and simp(x) == fv for k, x in v[4])
             ctx.check(okret, "R4", "ODEContent.fex", (FILE, f.line), "the 4th field of ODEContent (fex) is the zipped list",
                       found=show(v)[:160])
     if not rets:
